@@ -1,0 +1,26 @@
+//go:build verif
+
+package camelcase
+
+// Contracts checked by /verif/govc (see /verif/DESIGN.md). This file is compiled only with -tags verif.
+
+//@ func Split
+//@   props C19 C03
+//@   ensures !utf8.ValidString(src) ==> len(entries) == 1 && entries[0] == src
+//@   ensures forall e int :: 0 <= e && e < len(entries) ==> len(entries[e]) > 0
+//@   loop 1 invariant forall g int :: 0 <= g && g < len(runes) ==> len(runes[g]) > 0
+//@   loop 2 invariant 0 <= i
+//@   loop 2 invariant forall g int :: i <= g && g < len(runes) ==> len(runes[g]) > 0
+//@   loop 2 decreases len(runes) - i
+//@   loop 3 invariant forall e int :: 0 <= e && e < len(entries) ==> len(entries[e]) > 0
+
+// ---- govc prelude: ghost helpers of the clause language (identical in every contracts_verif.go) ----
+
+func spec_old[T any](v T) T                             { return v }
+func spec_entry[T any](v T) T                           { return v }
+func spec_has[K comparable, V any](m map[K]V, k K) bool { _, ok := m[k]; return ok }
+func spec_implies(a, b bool) bool                       { return !a || b }
+func spec_iff(a, b bool) bool                           { return a == b }
+func spec_all[T any](p func(T) bool) bool               { panic("ghost: unbounded quantifier") }
+func spec_any[T any](p func(T) bool) bool               { panic("ghost: unbounded quantifier") }
+func spec_fresh(p any) bool                             { panic("ghost: allocation predicate") }
